@@ -17,8 +17,8 @@ def check_state(case):
 
 def judge_state(case, o):
     if not case["ok"]:
-        if case["fok"]:
-            return "undecided"  # equal flat length, different shape: statement silent
+        # operands of an inner product must have the same shape (docs: "requires the lists ... to have the same
+        # length"); equal flat length with different shape (fok) is rejected by the engine as well
         return "ok" if o["err"] else "accepted-unequal-inner"
     if o["err"]:
         return "error-on-valid"
@@ -37,8 +37,6 @@ def check_api(case):
 
 def judge_api(case, o):
     if not case["ok"]:
-        if case["fok"]:
-            return "undecided"
         if not o["err"]:
             return "accepted-unequal-inner"
         if o["bodies"] or o["jobdirs"]:
